@@ -52,6 +52,8 @@ NODE_SPELL = [
     "(|| ev(log, {k}))()",
     "Pay::clone(&ev(log, {k}))",
     "if true {{ ev(log, {k}) }} else {{ unreachable!() }}",
+    "held(log).ev({k})",
+    "held(log).ev({k})",
 ]
 CALLER_LOCALS = ["parent", "node", "last", "temp", "root", "child", "value", "id", "tree", "arena_ref", "current", "prev", "next", "item", "n", "p", "x", "i"]
 ROOT_ID_SPELL = ["rid(log, anchor)", "(rid(log, anchor))", "{ rid(log, anchor) }", "{ let r = rid(log, anchor); r }"]
